@@ -420,6 +420,7 @@ class Run:
         self.stats = {}
         self.prng = random.Random(1000003 * ctx.seed + 17)    # permutation experiments (independent of op generation)
         self.perm_reqs = []       # (model 'accepts' request, what SQLite said, context)
+        self.planned = []         # ops of a multi-op pattern (reference cycle) still to be issued
         self.pk_used = set()      # (entity, target tag) pairs already used as a reference primary key
         self.byproducts = []      # op-level crashes of Pony that are outside C16 (reported in the notes)
         self.all_explicit = all(not e['auto'] for e in spec['ents'])
@@ -432,8 +433,40 @@ class Run:
             if self.flush_point('autoflush', None) is False: raise FlushFailed()
 
     # ---- op generation (online, from the live state)
+    def plan_cycle(self):
+        """a reference cycle among new objects: x = E(); y = F(back=x); x.fwd = y  (the flush of this session must fail
+        and leave the database - including pending link-row removals / additions of the same session - unchanged)"""
+        w, rng = self.w, self.rng
+        cands = []
+        for e in range(len(w.E)):
+            if w.pk_ref[e] is not None: continue
+            for fwd, te, req in w.ref_attrs[e]:
+                if req or w.pk_ref[te] is not None: continue
+                for back, te2, req2 in w.ref_attrs[te]:
+                    if te2 == e and (te != e or True): cands.append((e, fwd, te, back))
+        rng.shuffle(cands)
+        for e, fwd, te, back in cands:
+            def required_kw(ent, skip):
+                kw = {}
+                for name, t2, req in w.ref_attrs[ent]:
+                    if name in skip or not req: continue
+                    c = w.alive(t2)
+                    if not c: return None
+                    kw[name] = rng.choice(c)
+                return kw
+            kx = required_kw(e, (fwd,)); ky = required_kw(te, (back,))
+            if kx is None or ky is None: continue
+            tx = self.next_tag; ty = tx + 1; self.next_tag += 2
+            ky[back] = tx
+            return [['new', e, tx, kx, {}], ['new', te, ty, ky, {}], ['set', tx, fwd, ty]]
+        return None
+
     def gen_op(self, nops):
         w, rng = self.w, self.rng
+        if self.planned: return self.planned.pop(0)
+        if rng.random() < 0.04:
+            plan = self.plan_cycle()
+            if plan: self.planned = plan[1:]; return plan[0]
         for _ in range(20):
             r = rng.random()
             if r < 0.36 or not (w.objs or w.persist):
@@ -479,8 +512,13 @@ class Run:
             if r < 0.88:
                 if not w.m2m_attrs[e]: continue
                 name, te = rng.choice(w.m2m_attrs[e]); cands = w.alive(te)
+                if rng.random() < 0.5:
+                    # remove an EXISTING link (a pending link-row DELETE); reading the collection is a query
+                    self.before_query()
+                    members = [m.tag for m in getattr(o, name) if m._status_ not in DEAD]
+                    if members: return ['mrem', t, name, rng.choice(sorted(members))]
                 if not cands: continue
-                return [rng.choice(['madd', 'madd', 'mrem']), t, name, rng.choice(cands)]
+                return ['madd', t, name, rng.choice(cands)]
             if r < 0.94: return ['oflush', t]
             return ['flush']
         return ['flush']
@@ -789,6 +827,8 @@ def check_records(ctx, runs):
         if e_mc: ctx.count('branch:modified->created edge (UPDATE waits for INSERT)')
         if e_self: ctx.count('branch:self-reference of a created object')
         if any(st[x] == 'modified' and any(not d for _, d in rs) for x, rs in enumerate(req['refs'])): ctx.count('branch:modified object with a clean reference (filtered by wbits)')
+        if 'error' in rec['real'] and (req['removed'] or req['added']):
+            ctx.count('failing-flush-with-pending-link-rows:' + ('removal' if req['removed'] else 'addition'))
         if req['removed']: ctx.count('branch:unlink rows')
         if req['added']: ctx.count('branch:link rows')
         if 'chain' in model: ctx.count('cycle-chain-length:%d' % min(len(model['chain']), 6))
